@@ -54,6 +54,12 @@ CLAIMED = {
             'codecs, files and the second process are exercised by the harness (all channels x with/without/lazy lattice x raw permutations x fresh '
             'interpreter with another hash seed), not modelled. Known finding F4 (pickle of large lattices).',
             'proof of the codec + multi-channel differential correspondence (partial)', '7 C11'),
+    'C12': ('Theorems on a Gallina re-statement of the dumpers/loaders over code-point lists (validated against the library on dumps, independently written '
+            'variants and malformed text): table round trip for every indent, cxt round trip, csv round trip for both symbol sets and the sniffing loader '
+            '(any labels), readers written from the format descriptions recover the triple from table/cxt/csv/wiki-table output, FIMI/.dat rows are exactly '
+            'the true cells ascending and re-read, infer_format case-insensitive. Partial: codecs, real files, repr/literal_eval and the C csv module are '
+            'exercised / re-stated, not verified.',
+            'proof on a validated model of the formats + differential correspondence (partial)', '7 C12'),
     'C13': ('Theorems: the Definition machine (tools.Unique with _seen next to _items, _pairs set) refines the plain ordered-table model for all 26 '
             'operations: same triple, same return value, same exception, rejected call leaves the store unchanged; invariant for every history from '
             'the empty store; whole-history simulation; d == Definition(*d) after every step; bools shape. Correspondence: exhaustive single steps over '
